@@ -17,7 +17,7 @@ import time
 HERE = os.path.dirname(os.path.dirname(os.path.abspath(__file__)))
 VENV_PY = "/venv/bin/python"
 CONTRACT_MODULES = ["contracts.list_of_dicts", "contracts.io", "contracts.aggregate", "contracts.data_frame",
-                    "contracts.vector", "contracts.construct", "contracts.geojson", "contracts.dtregex", "contracts.deco"]
+                    "contracts.vector", "contracts.construct", "contracts.grouping", "contracts.geojson", "contracts.dtregex", "contracts.deco"]
 
 
 def load_contracts():
@@ -71,6 +71,72 @@ def run_bounded(prop, contracts, repo, tier, seed, only=None, replay=None):
         return {"__error__": f"bad driver output: {e}: {p.stdout[-500:]} {p.stderr[-1500:]}"}
 
 
+def bounded_only_property(prop, tier, seed, repo, t0, args):
+    """A property none of whose functions is under a deductive contract: only bounded run-time contracts on the real code.
+    Evidence level 'exploration' (never 'proof'); a failing input is a VIOLATION with a replay file."""
+    import re
+    from pyvc.contract import BOUNDED_ONLY
+    names = sorted(BOUNDED_ONLY[prop])
+    bounded = run_bounded(prop, names, repo, tier, seed)
+    if "__error__" in bounded:
+        print("bounded driver error:", bounded["__error__"], file=sys.stderr)
+        return 3
+    known = [k for k in known_findings() if k.get("property") == prop and k.get("status") == "open"]
+    os.makedirs(os.path.join(HERE, "replays", prop), exist_ok=True)
+    vio_lines, known_lines = [], []
+    evaluations = distinct = 0
+    samples = []
+    for name in names:
+        b = bounded.get(name, {})
+        evaluations += b.get("evaluations", 0)
+        distinct += b.get("distinct_nontrivial", 0)
+        samples += [dict(s_, driver=name) for s_ in b.get("samples", [])[:2]]
+        reported = False
+        for fl in b.get("failures", []):
+            hit = None
+            for k in known:
+                if k.get("contract") == name and k.get("clause_regex") and re.search(k["clause_regex"], fl.get("clause", "")):
+                    hit = k
+            if hit is not None:
+                if hit["what"] not in known_lines:
+                    known_lines.append(hit["what"])
+                continue
+            if reported:
+                continue
+            reported = True
+            fn = os.path.join("replays", prop, "b" + hid(name, fl.get("clause", "")) + ".json")
+            with open(os.path.join(HERE, fn), "w") as f:
+                json.dump({"property": prop, "contract": name, "obligation": "bounded-run-time-contract: " + fl.get("clause", ""),
+                           "failing_input": fl}, f, indent=1, default=str)
+            vio_lines.append(f"VIOLATION property={prop} replay={os.path.join(HERE, fn)}")
+        if not b.get("evaluations"):
+            print(f"ERROR no evaluations by bounded driver {name}")
+            return 3
+    wall = time.time() - t0
+    ev = {"property_id": prop, "tier": tier, "seed": seed, "level": "exploration",
+          "coverage": {"evaluations": evaluations, "distinct_nontrivial": distinct,
+                       "rule": "distinct JSON-encoded driver inputs that are not the empty collection (counted per driver, summed)",
+                       "samples": samples or [{"note": "no samples"}],
+                       "bounded_only_no_deductive_contract": BOUNDED_ONLY[prop],
+                       "drivers": {n: {k_: v_ for k_, v_ in bounded.get(n, {}).items() if k_ not in ("failures", "samples")} for n in names},
+                       "explanation": "no function of this property is under a deductive contract (see DESIGN.md): bounded run-time contracts on the real "
+                                      "code only - a stand-in, labelled bounded, never counted as proved",
+                       "exhaustive": False},
+          "assumptions": ["the stated bounds of the drivers; Python / NumPy / json of the installed versions"],
+          "wall_s": round(wall, 2), "violations": len(vio_lines)}
+    evdir = "evidence" if os.path.realpath(repo) == "/repo" else os.path.join("replays", "scratch-evidence")
+    os.makedirs(os.path.join(HERE, evdir), exist_ok=True)
+    with open(os.path.join(HERE, evdir, f"{prop}.json"), "w") as f:
+        json.dump(ev, f, indent=1, default=str)
+    for w in known_lines:
+        print(f"KNOWN-FINDING: property={prop} {w}")
+    print(f"{prop}: bounded only: {evaluations} evaluations over {len(names)} drivers ({distinct} distinct non-trivial inputs); "
+          f"{len(vio_lines)} violations; {wall:.1f}s")
+    for l in vio_lines:
+        print(l)
+    return 1 if vio_lines else 0
+
+
 def main(argv=None):
     ap = argparse.ArgumentParser()
     ap.add_argument("prop")
@@ -104,6 +170,9 @@ def main(argv=None):
         return 0
 
     if not mine:
+        from pyvc.contract import BOUNDED_ONLY
+        if BOUNDED_ONLY.get(prop):
+            return bounded_only_property(prop, tier, seed, repo, t0, args)
         print(f"no contracts registered for {prop}")
         return 3
     timeout_ms = 10000 if tier == "quick" else 60000
